@@ -2,6 +2,7 @@ package harness
 
 import (
 	"fmt"
+	"runtime"
 	"sort"
 	"strings"
 
@@ -154,8 +155,10 @@ func applyAlt(c *Case) (*Case, int, bool) {
 // userPanic: the value is one that a generated function body panics with.
 func userPanic(v interface{}) bool {
 	switch x := v.(type) {
-	case *PanicVal, *PanicErr, *CBPanicVal:
+	case *PanicVal, *PanicErr, *CBPanicVal, PanicSlice:
 		return true
+	case runtime.Error:
+		return strings.Contains(x.Error(), "nil map") // Fn.PK == 7
 	case string:
 		return strings.HasPrefix(x, "panic of f") // Fn.PK == 4
 	}
@@ -205,9 +208,10 @@ func init() {
 			k.PSoft = 0 // soft group content depends on field placement by design (C11)
 			k.PNamed, k.PGroupRes = 30, 25
 			k.PFresh = 85
-			k.PDefer, k.PCycleKeep = 25, 15 // cyclic graphs accepted under Defer: both encodings must meet the same verdicts
-			k.PNoResult = 3                 // no results at all == only empty result objects
-			k.POpt, k.PAvail = 25, 88       // optional edges above missing dependencies, in every encoding
+			k.PDefer, k.PCycleKeep = 25, 15   // cyclic graphs accepted under Defer: both encodings must meet the same verdicts
+			k.PNoResult = 3                   // no results at all == only empty result objects
+			k.PDeepWrap, k.PEmptyTag = 10, 12 // objects several levels down; explicit empty tags
+			k.POpt, k.PAvail = 25, 88         // optional edges above missing dependencies, in every encoding
 			if rapid.IntRange(0, 99).Draw(t, "wrapmode") < 35 {
 				// order-preserving re-encodings on histories with failing
 				// functions: the same functions must run in both forms
